@@ -486,6 +486,14 @@ class Interp:
             if init is not None:
                 self.call_funcinfo(init, args, kwargs, o, node)
             return o
+        if isinstance(f, ExtRef) and isinstance(kwargs.get('out'), Value) and not isinstance(kwargs['out'], (Const, Unknown, Tup)) \
+                and type(kwargs['out']).__module__ != __name__ and type(kwargs['out']).__name__ not in ('Sym', 'Dim', 'Scalar') and getattr(self.dom, 'alias_inplace', True):
+            # np.<ufunc>(..., out=x): the result is computed as without out=, and x (through every alias of it) becomes that result
+            out = kwargs['out']
+            r = self.call_value(f, args, {k: v for k, v in kwargs.items() if k != 'out'}, node, frame)
+            if r is not out:
+                self.fwd[id(out)] = (out, r)
+            return r
         if isinstance(f, ExtRef):
             self.emit('extcall', name=f.dotted, args=list(args), kwargs=dict(kwargs), node=node)
             r = self._concrete_ext(f.dotted, args, kwargs)
@@ -1162,6 +1170,8 @@ class Interp:
         r = self.dom.getattr(o, name, node)
         if r is not None:
             return r
+        if isinstance(o, Slice) and name in ('start', 'stop', 'step'):
+            return {'start': o.lo, 'stop': o.hi, 'step': o.step}[name]
         if isinstance(o, (Tup, DictV)) or (isinstance(o, Const) and isinstance(o.v, str)):
             return BoundMethod(o, name)
         if isinstance(o, Const) and isinstance(o.v, (int, float, complex)):
@@ -1246,7 +1256,10 @@ class Interp:
         a = self.ev(node.operand, frame)
         if isinstance(node.op, ast.Not):
             t = self.truth(a)
-            return Const(not t) if t is not None else Unknown('not')
+            if t is not None:
+                return Const(not t)
+            r = self.dom.unary(node.op, a, node)          # a domain may keep what the negated test depends on
+            return r if r is not None else Unknown('not')
         r = self.dom.unary(node.op, a, node)
         if r is not None:
             return r
